@@ -212,10 +212,19 @@ def canon_id(G, n0):
 def caller_state(G, n0):
   """state of ALL the caller's objects (reachable or not), attribute order forgotten: used only to measure the
   detached-object observation"""
+  def nv(v):
+    if isinstance(v, dict):
+      if 'd' in v:
+        return {'d': [[k, nv(x)] for k, x in sorted_items(v['d'])]}
+      if 'l' in v or 't' in v:
+        k = 'l' if 'l' in v else 't'
+        return {k: [nv(x) for x in v[k]]}
+    return v
+
   out = []
   for o in G['heap'][:n0]:
     if 'cls' in o:
-      out.append(['node', o['cls'], [[k, json.dumps(v, sort_keys=True)] for k, v in sorted_items(o['attrs'])]])
+      out.append(['node', o['cls'], [[k, json.dumps(nv(v), sort_keys=True)] for k, v in sorted_items(o['attrs'])]])
     else:
       out.append(['var', o['vt'], o['val'], sorted(o['md'])])
   return out
@@ -686,20 +695,20 @@ class ProgGen:
     rng = self.rng
     nr = self.node_regs()
     r = rng.random()
-    if r < 0.14:
+    if r < 0.1:
       self.emit({'op': 'newNode', 'cls': rng.choice(CLS_NAMES)})
       return True
-    if r < 0.3:
+    if r < 0.22:
       self.emit({'op': 'newVar', 'vt': VT_MRO[rng.choice(VT_NAMES)], 'e': self.expr(1), 'md': [list(x) for x in rng.choice(METAS)]})
       return True
-    if r < 0.36:
+    if r < 0.27:
       self.emit({'op': 'litStatic', 's': rng.choice(STATICS)} if rng.random() < 0.8 else {'op': 'litNone'})
       return True
     if not nr:
       return False
     tgt = rng.choice(nr)
     attrs = self.heap[self.env[tgt]['r']]['attrs']
-    if r < 0.52 and attrs:
+    if r < 0.45 and attrs:
       self.structural = True
       self.emit({'op': 'delAttr', 'r': tgt, 'k': rng.choice(attrs)[0]})
       return True
@@ -801,7 +810,7 @@ def strip_arrays(v):
 def gen_case(rng, kind=None):
   G = gen_graph(rng)
   heap = G['heap']
-  kind = kind or rng.choices(['jit', 'remat', 'cond', 'switch', 'fori', 'while', 'cached_partial'], [34, 10, 12, 10, 13, 8, 13])[0]
+  kind = kind or rng.choices(['jit', 'remat', 'cond', 'switch', 'fori', 'while', 'cached_partial'], [38, 12, 10, 8, 12, 8, 12])[0]
   if kind == 'cached_partial':
     for o in heap:
       if 'cls' in o:
@@ -898,8 +907,12 @@ def gen_case(rng, kind=None):
     # advance the abstract heap with the eager semantics (to generate valid edits); stop the history on an error
     try:
       abs_call(spec, h, args, st.get('i', 0), st.get('n', 0))
-    except AbsErr:
+    except AbsErr as e:
       alive = False
+      if str(e) != 'attrError':
+        steps.pop()  # ill-typed after an edit (e.g. `.value` of an array): outside the DSL's domain
+        while steps and 'edit' in steps[-1]:
+          steps.pop()
     except Exception:
       alive = False
     if not alive or c == n_calls - 1:
@@ -1104,7 +1117,7 @@ def run(ctx):
   ctx.corpus_replayed += len(corpus)
   if corpus:
     check_cases(ctx, drv, corpus, 'corpus')
-  n_cases = 46 if not thorough else 1500
+  n_cases = 150 if not thorough else 4000
   cases = []
   budget_calls = 0
   for _ in range(n_cases):
